@@ -40,7 +40,10 @@ func c01Kind(o client.Object) string {
 }
 
 type c01World struct {
-	w        *vpWorld // current incarnation of the controller
+	// delivered: every event handed to the current incarnation (start-up listing included), as Coq terms
+	// (deleted?, "<Go type>/<namespace>/<name>", generation), for the kinds the processor persists
+	delivered []string
+	w         *vpWorld // current incarnation of the controller
 	k8s      client.WithWatch
 	lastCfg  map[string]string // last file set handed to any incarnation's file manager
 	restarts int
@@ -54,8 +57,41 @@ func (cw *c01World) start() {
 	for _, o := range vpListAll(cw.k8s) {
 		evs = append(evs, upsertOf(o))
 	}
+	cw.delivered = nil
+	cw.record(evs)
 	nw.Batch(evs)
 	cw.sync()
+}
+
+// record notes the events of a batch that concern persisted kinds.
+func (cw *c01World) record(evs []interface{}) {
+	for _, e := range evs {
+		switch x := e.(type) {
+		case *events.UpsertEvent:
+			if cw.w.proc.VerifPersists(x.Resource) {
+				cw.delivered = append(cw.delivered, vu.Tuple("false", vu.Str(c01Kind(x.Resource)+"/"+x.Resource.GetNamespace()+"/"+x.Resource.GetName()), vu.Z(x.Resource.GetGeneration())))
+			}
+		case *events.DeleteEvent:
+			if cw.w.proc.VerifPersists(x.Type) {
+				cw.delivered = append(cw.delivered, vu.Tuple("true", vu.Str(c01Kind(x.Type)+"/"+x.NamespacedName.Namespace+"/"+x.NamespacedName.Name), vu.Z(0)))
+			}
+		}
+	}
+}
+
+// storeTerm prints the processor's cluster state as a sorted association list.
+func (cw *c01World) storeTerm() string {
+	st := cw.w.proc.VerifStore()
+	keys := make([]string, 0, len(st))
+	for k := range st {
+		keys = append(keys, k)
+	}
+	sort.Strings(keys)
+	var items []string
+	for _, k := range keys {
+		items = append(items, vu.Pair(vu.Str(k), vu.Z(st[k])))
+	}
+	return vu.List(items)
 }
 
 func (cw *c01World) sync() {
@@ -328,6 +364,7 @@ func c01Histories(out *vu.Out, rng *vu.Rng, n int, focusGrants bool) {
 		var humanOps []string
 		flush := func() {
 			if len(batch) > 0 {
+				cw.record(batch)
 				cw.w.Batch(batch)
 				batch = nil
 				cw.sync()
@@ -370,7 +407,7 @@ func c01Histories(out *vu.Out, rng *vu.Rng, n int, focusGrants bool) {
 				cflags = append(cflags, "http-and-grpc-route-share-a-path")
 			}
 			term := vu.App("Case", abs.Coq(), c04Texts(longFiles), longMatches, c04Texts(freshFiles), freshMatches,
-				vu.StrList(longRel), vu.StrList(freshConds), vu.StrList(cflags))
+				vu.StrList(longRel), vu.StrList(freshConds), vu.StrList(cflags), vu.List(cw.delivered), cw.storeTerm())
 			human := map[string]any{"history": hops, "restarts": cw.restarts, "flags": cflags, "long_conds": longRel, "fresh_conds": freshConds,
 				"long_files": longFiles, "fresh_files": freshFiles, "compared": map[bool]string{true: "at the end", false: "at a checkpoint"}[final]}
 			out.Case(term, human, len(hops) >= 15, strings.Join(hops, ";"))
